@@ -1,4 +1,4 @@
-CONSTANT Polys = {13, 25, 37, 61}
+CONSTANT Polys = {13, 25, 37}
 SPECIFICATION Spec
 INVARIANT GroupLaw
 CHECK_DEADLOCK FALSE
